@@ -20,12 +20,17 @@ from engine import monitor as _monitor          # noqa: E402
 META["audit"] = lambda: _monitor.audit(('H5',))
 
 
-def ob_init_agent(names, n_obj):
+def same_float(a, b):
+    """equality that treats two NaN as equal (a NaN objective mirrors as NaN)"""
+    return (a != a and b != b) or a == b
+
+
+def ob_init_agent(names, n_obj, f_kind="real"):
     def f():
         with env():
             vs_a, vs_b = build_vars(names), build_vars(names)
             decls = leaf_decls(vs_a)
-            F = [sym.real(f"F{j}") for j in range(n_obj)]
+            F = [{"real": sym.real, "any": sym.any_float}[f_kind](f"F{j}") for j in range(n_obj)]
             w = [sym.real(f"w{j}", lo=0.0) for j in range(n_obj)] if n_obj > 1 else None
             fa = (lambda x, i: list(F)) if n_obj > 1 else (lambda x, i: F[0])
             fb = (lambda x, i: [-v for v in F]) if n_obj > 1 else (lambda x, i: -F[0])
@@ -37,11 +42,11 @@ def ob_init_agent(names, n_obj):
             a, b = oa._init_agent(list(x)), ob._init_agent(list(x))
             if a.position != b.position:
                 return Failure("positions-differ", a=a.position, b=b.position)
-            if a.cost != b.cost:
+            if not same_float(a.cost, b.cost):
                 return Failure("internal-costs-differ", a=a.cost, b=b.cost)
             ra = M.Population(agents=[a], task_type=MAX).agents[0].cost
             rb = M.Population(agents=[b], task_type=MIN).agents[0].cost
-            if ra != -rb:
+            if not same_float(ra, -rb):
                 return Failure("reported-costs-are-not-exact-negatives", max=ra, min=rb)
             return OK
     return f
@@ -125,6 +130,8 @@ def obligations(tier):
     for names in (("C",), ("C", "D3"), ("P3",)):
         for k in (1, 2):
             obs.append(Ob(f"init_agent[{'+'.join(names)},k={k}]", ob_init_agent(names, k), 300))
+    # objective values of every float kind: finite, +inf, -inf, NaN (sqrt / log outside their domain)
+    obs.append(Ob("init_agent[C,k=1,any-objective-value]", ob_init_agent(("C",), 1, "any"), 300))
     for rule in ("greedy", "extend_trim", "tracked"):
         for n, cycles in ((2, 1), (1, 2)) + (((2, 2), (3, 1), (1, 3)) if th else ()):
             if rule == "tracked" and n == 1:
